@@ -268,3 +268,149 @@ theorem bellmanFord_ok {g : Graph} {src : Nat} {r : Dist × Pred} (h : bellmanFo
       | some x => exact absurd ⟨e, hm, by simp [hi]⟩ this
 
 end Gmx.SwapGraph
+
+namespace Gmx.SwapGraph
+
+/-! ### predecessors are edges of the graph -/
+
+/-- every recorded predecessor `(u, m)` of `v` is an estimated edge `u → v` of market `m`. -/
+def PredOk (g : Graph) (pred : Pred) : Prop :=
+  ∀ v u m, pred v = some (u, m) →
+    ∃ e ∈ g.edges, e.src = u ∧ e.dst = v ∧ e.market = m ∧ e.cost.isSome = true
+
+theorem predOk_init (g : Graph) : PredOk g initPred := by
+  intro v u m h; cases h
+
+theorem mem_edges_of_mem_relaxOrder (g : Graph) (e : Edge) (h : e ∈ relaxOrder g) : e ∈ g.edges := by
+  unfold relaxOrder at h
+  rw [List.mem_flatten] at h
+  obtain ⟨l, hl, he⟩ := h
+  obtain ⟨i, _, rfl⟩ := List.mem_map.1 hl
+  unfold outgoing at he
+  rw [List.mem_reverse, List.mem_filter] at he
+  exact he.1
+
+theorem relaxEdge_predOk (g : Graph) (steps ms : Nat) (s : BFState) (e : Edge) (he : e ∈ g.edges)
+    (h : PredOk g s.pred) : PredOk g (relaxEdge steps ms s e).pred := by
+  unfold relaxEdge
+  split
+  · rename_i x hx
+    obtain ⟨w, d, hw, _, _, _⟩ := improves_some hx
+    simp only []
+    split
+    · intro v u m hv
+      simp only [setP] at hv
+      by_cases hq : v = e.dst
+      · subst hq
+        simp only [if_true] at hv
+        cases hv
+        exact ⟨e, he, rfl, rfl, rfl, by simp [hw]⟩
+      · simp only [hq, if_false] at hv
+        exact h v u m hv
+    · exact h
+  · exact h
+
+theorem foldl_predOk (g : Graph) (steps ms : Nat) : ∀ (es : List Edge) (s : BFState),
+    (∀ e ∈ es, e ∈ g.edges) → PredOk g s.pred → PredOk g (es.foldl (relaxEdge steps ms) s).pred
+  | [], _, _, h => h
+  | e :: es, s, hm, h => by
+    simp only [List.foldl_cons]
+    exact foldl_predOk g steps ms es _ (fun x hx => hm x (List.mem_cons_of_mem _ hx))
+      (relaxEdge_predOk g steps ms s e (hm e (List.mem_cons_self ..)) h)
+
+theorem round_predOk (g : Graph) (steps : Nat) (dist : Dist) (pred : Pred) (h : PredOk g pred) :
+    PredOk g (round g steps dist pred).pred :=
+  foldl_predOk g steps g.maxSteps (relaxOrder g) ⟨dist, pred, false⟩
+    (fun e he => mem_edges_of_mem_relaxOrder g e he) h
+
+theorem bfLoop_predOk (g : Graph) : ∀ (fuel steps : Nat) (d : Dist) (p : Pred) (c : Option Dist),
+    PredOk g p → PredOk g (bfLoop g fuel steps d p c).2.1
+  | 0, _, _, _, _, h => by simpa [bfLoop] using h
+  | fuel + 1, steps, d, p, c, h => by
+    unfold bfLoop
+    simp only []
+    have hr := round_predOk g steps d p h
+    split
+    · exact hr
+    · exact bfLoop_predOk g fuel (steps + 1) _ _ _ hr
+
+theorem foldl_inv {α β} (P : α → Prop) (f : α → β → α) : ∀ (l : List β) (a : α),
+    P a → (∀ a b, b ∈ l → P a → P (f a b)) → P (l.foldl f a)
+  | [], _, h, _ => h
+  | b :: l, a, h, hf => by
+    simp only [List.foldl_cons]
+    exact foldl_inv P f l (f a b) (hf a b (List.mem_cons_self ..) h)
+      (fun a' b' hb' => hf a' b' (List.mem_cons_of_mem _ hb'))
+
+/-- what `dfs_recursive` may be handed as predecessor of `cur` together with a defined distance. -/
+def PredArgOk (g : Graph) (cur : Nat) (distance : Option Int) (p : Option (Nat × Nat)) : Prop :=
+  distance.isSome = true → ∀ u m, p = some (u, m) →
+    ∃ e ∈ g.edges, e.src = u ∧ e.dst = cur ∧ e.market = m ∧ e.cost.isSome = true
+
+theorem dfsRec_predOk (g : Graph) : ∀ (fuel cur : Nat) (distance : Option Int)
+    (p : Option (Nat × Nat)) (steps : Nat) (visited : List Nat) (st : Dist × Pred),
+    PredArgOk g cur distance p → PredOk g st.2 →
+    PredOk g (dfsRec g fuel cur distance p steps visited st).2
+  | 0, _, _, _, _, _, _, _, h => by simpa [dfsRec] using h
+  | fuel + 1, cur, distance, p, steps, visited, st, hp, h => by
+    unfold dfsRec
+    by_cases h1 : steps > g.maxSteps
+    · rw [if_pos h1]; exact h
+    · rw [if_neg h1]
+      cases distance with
+      | none => exact h
+      | some d =>
+        simp only []
+        by_cases h2 : pruned (st.1 cur) d = true
+        · rw [if_pos h2]; exact h
+        · rw [if_neg h2]
+          apply foldl_inv (fun s : Dist × Pred => PredOk g s.2)
+          · intro v u m hv
+            simp only [setP] at hv
+            by_cases hq : v = cur
+            · subst hq
+              simp only [if_true] at hv
+              exact hp (by simp) u m hv
+            · simp only [hq, if_false] at hv
+              exact h v u m hv
+          · intro a e he ha
+            by_cases h3 : (cur :: visited).contains e.dst = true
+            · rw [if_pos h3]; exact ha
+            · rw [if_neg h3]
+              apply dfsRec_predOk g fuel _ _ _ _ _ _ _ ha
+              intro hsome u m hum
+              cases hum
+              unfold outgoing at he
+              rw [List.mem_reverse, List.mem_filter] at he
+              refine ⟨e, he.1, by simpa using he.2, rfl, rfl, ?_⟩
+              cases hc : e.cost with
+              | none => rw [hc] at hsome; cases hsome
+              | some w => rfl
+
+/-- the predecessor walk reconstructs a genuine walk of the graph: the returned markets are the
+markets of consecutive estimated edges leading to the target, and the walk starts at a node
+without predecessor. -/
+theorem walk_chain (g : Graph) (pred : Pred) (hok : PredOk g pred) (ms tgt : Nat) :
+    ∀ (fuel : Nat) (c : Nat) (steps : Nat) (acc path : List Nat) (es : List Edge),
+      es.map (·.market) = acc → isWalk g c es = true → walkEnd c es = tgt →
+      walk pred ms fuel (pred c) steps acc = some path →
+      ∃ (x : Nat) (es' : List Edge), es'.map (·.market) = path ∧ isWalk g x es' = true ∧
+        walkEnd x es' = tgt ∧ pred x = none
+  | 0, _, _, _, _, _, _, _, _, h => by simp [walk] at h
+  | fuel + 1, c, steps, acc, path, es, hm, hw, he, h => by
+    unfold walk at h
+    split at h
+    · rename_i hn
+      cases h
+      exact ⟨c, es, hm, hw, he, hn⟩
+    · rename_i p m hpm
+      split at h
+      · cases h
+      · obtain ⟨e, hin, hs, hd, hmk, hc⟩ := hok c p m hpm
+        refine walk_chain g pred hok ms tgt fuel p (steps + 1) (m :: acc) path (e :: es) ?_ ?_ ?_ h
+        · simp [hmk, hm]
+        · simp only [isWalk, Bool.and_eq_true, decide_eq_true_eq]
+          exact ⟨⟨⟨hin, hs⟩, hc⟩, by rw [hd]; exact hw⟩
+        · simp only [walkEnd]; rw [hd]; exact he
+
+end Gmx.SwapGraph
